@@ -2,6 +2,7 @@ import Holpy.Common.Sexp
 import Holpy.C19.Model
 import Holpy.C19.Parser
 import Holpy.C19.Linearity
+import Holpy.C19.Rules
 /-
 Line protocol for the C19 model (one s-expression in, one out).
 
@@ -15,6 +16,11 @@ Line protocol for the C19 model (one s-expression in, one out).
   (parse ATOM)          -> (ok EXPR) | fail               parser model on a percent-encoded string
   (lin EXPR)            -> EXPR                           Linearity().eval (fuel: 4 * size + 8)
   (split C EXPR)        -> EXPR                           SplitRegion(C).eval, non-CPV branch
+  (subst U G Q T|F EXPR) -> EXPR                          Substitution(U, G).eval with recorded normalize result Q, swap flag
+  (parts U V EXPR)      -> EXPR                           IntegrationByParts(U, V).eval once accepted
+  (ftc F EXPR)          -> EXPR                           INT x:[a,b]. f ~> [F]_x=a,b
+  (isqrt I) (iexp I) (ilog I) -> SIVAL = (SB SB T|F T|F), SB = -oo | oo | (NUM DEN) | (app NAME NUM DEN)
+  (icontained I J) -> T|F        (iinter I J) -> IVAL
   (iadd I J) (isub I J) (ineg I) (imul I J) (iinv I) (idiv I J) (ipow I N) -> IVAL | raises
 -/
 open Holpy Holpy.C19
@@ -94,6 +100,14 @@ def ivalOf : Sexp → Option Ival
 
 def ivalTo (i : Ival) : Sexp := .list [boundTo i.lo, boundTo i.hi, Sexp.ofBool i.lopen, Sexp.ofBool i.ropen]
 
+def sboundTo : SBound → Sexp
+  | .negInf => .atom "-oo"
+  | .posInf => .atom "oo"
+  | .fin q => .list [Sexp.ofInt q.num, Sexp.ofNat q.den]
+  | .app f q => .list [.atom "app", .atom f, Sexp.ofInt q.num, Sexp.ofNat q.den]
+
+def sivalTo (i : SIval) : Sexp := .list [sboundTo i.lo, sboundTo i.hi, Sexp.ofBool i.lopen, Sexp.ofBool i.ropen]
+
 def ivalOptTo : Option Ival → String
   | some i => toString (ivalTo i)
   | none => "raises"
@@ -117,6 +131,38 @@ def handle (line : String) : String :=
     match parseStr (decAtom s) with
     | some e => toString (Sexp.list [.atom "ok", exprTo e])
     | none => "fail"
+  | some (.list [.atom "subst", .atom u, g, q, sw, e]) =>
+    match exprOf g, exprOf q, sw.toBool?, exprOf e with
+    | some g, some q, some sw, some e => toString (exprTo (substM (decAtom u) g q sw e))
+    | _, _, _, _ => "bad-op"
+  | some (.list [.atom "parts", u, v, e]) =>
+    match exprOf u, exprOf v, exprOf e with
+    | some u, some v, some e => toString (exprTo (partsM u v e))
+    | _, _, _ => "bad-op"
+  | some (.list [.atom "ftc", f, e]) =>
+    match exprOf f, exprOf e with
+    | some f, some e => toString (exprTo (ftcM f e))
+    | _, _ => "bad-op"
+  | some (.list [.atom "isqrt", i]) =>
+    match ivalOf i with
+    | some i => toString (sivalTo (Ival.sqrtI i))
+    | _ => "bad-op"
+  | some (.list [.atom "iexp", i]) =>
+    match ivalOf i with
+    | some i => toString (sivalTo (Ival.expI i))
+    | _ => "bad-op"
+  | some (.list [.atom "ilog", i]) =>
+    match ivalOf i with
+    | some i => toString (sivalTo (Ival.logI i))
+    | _ => "bad-op"
+  | some (.list [.atom "icontained", i, j]) =>
+    match ivalOf i, ivalOf j with
+    | some i, some j => toString (Sexp.ofBool (Ival.containedIn i j))
+    | _, _ => "bad-op"
+  | some (.list [.atom "iinter", i, j]) =>
+    match ivalOf i, ivalOf j with
+    | some i, some j => toString (ivalTo (Ival.inter i j))
+    | _, _ => "bad-op"
   | some (.list [.atom "lin", e]) =>
     match exprOf e with
     | some e => toString (exprTo (linearityM (4 * size e + 8) e))
